@@ -2,18 +2,22 @@
 # run every seeded change against the real ./check of its property, on a scratch worktree of
 # /repo (PENMAN_REPO), never on /repo itself; one line per seed: caught / caught(no-input) / MISSED
 W=${1:-/tmp/seedrun}
-cd /verif
+V=$(cd "$(dirname "$0")/.." && pwd)
+cd $V
+OUT=$(mktemp /tmp/check_out.XXXXXX)
+[ -d $W ] || git -C /repo worktree add -q --detach $W HEAD
 for d in ${SEEDS:-seeded/*/}; do
   NAME=$(basename $d)
   P=$(python3 -c "import json;print(json.load(open('$d/meta.json'))['property'])")
   git -C $W checkout -q -- .
-  git -C $W apply /verif/$d/patch.diff || { echo "$NAME [$P]: patch does not apply"; continue; }
-  PENMAN_REPO=$W ./check $P > /tmp/seed_check_out.txt 2>&1
+  git -C $W apply $V/$d/patch.diff || { echo "$NAME [$P]: patch does not apply"; continue; }
+  PENMAN_REPO=$W ./check $P > $OUT 2>&1
   RC=$?
   git -C $W checkout -q -- .
-  if grep -q "^VIOLATION property=$P .*no-failing-input-found" /tmp/seed_check_out.txt; then R="caught (no failing input found)";
-  elif grep -q "^VIOLATION property=$P" /tmp/seed_check_out.txt; then R="caught with a failing input";
+  if grep -q "^VIOLATION property=$P .*no-failing-input-found" $OUT; then R="caught (no failing input found)";
+  elif grep -q "^VIOLATION property=$P" $OUT; then R="caught with a failing input";
   else R="MISSED"; fi
   echo "$NAME [$P]: exit=$RC $R"
 done
 PENMAN_REPO=/repo /venv/bin/python tools/gen_tables.py >/dev/null
+rm -f $OUT
